@@ -25,7 +25,12 @@ class LocalDeme(AbstractDeme):
 
     def run_metaepoch(self, _) -> None:
         x0 = self._sprout_seed.genome
-        fun = self._problem.evaluate
+        # scipy minimises: on a maximisation problem it is given -fitness (converted back in the callback).
+        sign = -1.0 if self._problem.maximize else 1.0
+        self._cost_sign = sign
+
+        def fun(x):
+            return sign * self._problem.evaluate(x)
 
         result = sopt.minimize(
             fun,
@@ -51,5 +56,5 @@ class LocalDeme(AbstractDeme):
 
     def _history_callback(self, intermediate_result) -> None:
         ind = Individual(intermediate_result.x.copy(), problem=self._problem)
-        ind.fitness = intermediate_result.fun
+        ind.fitness = getattr(self, "_cost_sign", 1.0) * intermediate_result.fun
         self._run_history.append(ind)
